@@ -296,6 +296,17 @@ def r5(ctx):
         if (v.get('callee') or '').startswith('std::basic_string') and base.startswith(('find', 'rfind')) and len(v.get('args', [])) >= 2 and \
                 fn.key(v['args'][0]) in nxt:
             searches.append((c, base))
+    if nxt and not searches:
+        # the next constant is fetched but the topic is searched for something else: the end of the field value is not
+        # where the template says
+        others = [c for c in fn.all('CXXMemberCallExpr') if (fn.nodes[c].get('callee') or '').startswith('std::basic_string') and
+                  (fn.nodes[c].get('callee') or '').split('::')[-1].startswith(('find', 'rfind')) and len(fn.nodes[c].get('args', [])) >= 2 and
+                  'm_parts' not in fn.key(fn.nodes[c].get('obj', -1)) and fn.key(fn.nodes[c]['args'][0]) not in nxt]
+        for c in others:
+            ctx.ob('C18.R5', fn, c, False, 'search for the end of a field value', 'searches for %s, not for the next constant of the template (%s)' % (
+                fn.key(fn.nodes[c]['args'][0]), ', '.join(nxt)))
+        if others:
+            return
     if not nxt or not searches:
         raise AnalysisBroken('C18.R5: search for the next constant part not recognised in StringReplacer::match')
     cursor = fn.key(fn.nodes[searches[0][0]]['args'][1])
